@@ -498,7 +498,7 @@ impl Session {
     /// every phrase some layer holds for `key` under the lookup strategy in force — exactly `key`, or
     /// (`fuzzy`, `FuzzyPartialPrefix`) a stored key of the same number of syllables each of which
     /// `starts_with` the query's; all layers are in-memory `TrieBuf`s, which match their pending entries by
-    /// prefix since fix 097161a (F36) — user layer: pending entries minus the tombstones of their own key
+    /// prefix since fix c3d9fb2 (F36) — user layer: pending entries minus the tombstones of their own key
     fn held_for(&self, key: &[Syllable], fuzzy: bool) -> Vec<String> {
         let m = |k: &[Syllable]| -> bool {
             if fuzzy {
